@@ -1,5 +1,5 @@
 #!/usr/bin/env python3
-"""tools/seedtest.py <Cxx> [--import-from /tmp/seed/Cxx] [--no-suite]
+"""tools/seedtest.py <Cxx> [--import-from /tmp/seed/Cxx] [--no-suite] [--tag b]
 
 Confirms a seeded breaking change kept under /verif/seeded/<id>/ :
   1. scratch worktree of /repo HEAD (outside /repo and /verif), apply patch.diff
@@ -27,7 +27,9 @@ def sh(cmd, cwd=None, timeout=1800):
 def main():
     pid = sys.argv[1]
     args = sys.argv[2:]
-    sd = os.path.join(ROOT, "seeded", pid)
+    tag = args[args.index("--tag") + 1] if "--tag" in args else ""       # second-round seeds live in seeded/<id>_<tag>
+    sname = pid + ("_" + tag if tag else "")
+    sd = os.path.join(ROOT, "seeded", sname)
     os.makedirs(sd, exist_ok=True)
     if "--import-from" in args:
         src = args[args.index("--import-from") + 1]
@@ -37,7 +39,7 @@ def main():
         if os.path.exists(os.path.join(src, "rebased.diff")):
             shutil.copy(os.path.join(src, "rebased.diff"), os.path.join(sd, "patch.diff"))
     patch = os.path.join(sd, "patch.diff")
-    wt = f"/tmp/sw_{pid}"
+    wt = f"/tmp/sw_{sname}"
     sh(f"git -C /repo worktree remove --force {wt}")
     shutil.rmtree(wt, ignore_errors=True)
     rc, out = sh(f"git -C /repo worktree add --detach {wt} HEAD")
@@ -69,7 +71,7 @@ def main():
     try:
         rc, out = sh(f"VERIF_EVIDENCE_DIR={ROOT}/.work/seed_evidence ./bin/check {pid} 2>&1 | grep -v conda", cwd=ROOT, timeout=3600)
         viol = [l for l in out.splitlines() if l.startswith("VIOLATION")]
-        res["check_cmd"] = f"git -C /repo apply seeded/{pid}/patch.diff && ./bin/check {pid}; git -C /repo checkout -- ."
+        res["check_cmd"] = f"git -C /repo apply /verif/seeded/{sname}/patch.diff && ./bin/check {pid}; git -C /repo checkout -- ."
         res["check_caught"] = bool(viol)
         res["check_first_violation"] = (viol[0] + " | " + next((l.strip() for l in out.splitlines() if l.strip().startswith("what:")), "")) if viol else None
         res["check_tail"] = out.strip().splitlines()[-1] if out.strip() else ""
